@@ -16,8 +16,13 @@ EXPLANATION = (
 
 
 def check(run):
+    rules_save(run, 'C06')
+    rules_restore(run, 'C06')
+
+
+def rules_save(run, P='C06', ids=('.1', '.2', '.3')):
     prog = run.prog
-    r = run.rule('C06.1', 'Interpreter._memory is written only in the exit loop of _apply_step (and created in __init__), read only in '
+    r = run.rule(P + ids[0], 'Interpreter._memory is written only in the exit loop of _apply_step (and created in __init__), read only in '
                           '_create_stabilization_step')
     A = ApplyStep(run, r)
     fi, F = A.fi, A.F
@@ -41,13 +46,13 @@ def check(run):
                           'history memory read outside _create_stabilization_step', node)
     run.floor(n, 2, r, 'writers of _memory')
 
-    r = run.rule('C06.2', 'deep history <-> active descendants of the exited parent, shallow history <-> active children; both intersected with a '
+    r = run.rule(P + ids[1], 'deep history <-> active descendants of the exited parent, shallow history <-> active children; both intersected with a '
                           'snapshot (copy) of the configuration taken before the exit loop')
     stores = [s for s in A.in_region('exit') if s.label.startswith('mem_save')]
     run.check(len(stores) >= 2, r, fi.short, 'one save per history kind', 'expected a save for deep and one for shallow history, found %d' % len(stores), A.exit_loop)
     sv = A.exit_loop.target.id if isinstance(A.exit_loop.target, ast.Name) else None
     seen = set()
-    r3 = run.rule('C06.3', 'the save runs for every exited compound state with a history child, depends on nothing else, and overwrites the '
+    r3 = run.rule(P + ids[2], 'the save runs for every exited compound state with a history child, depends on nothing else, and overwrites the '
                            'previous memory (plain store keyed by the history state)')
     for s in stores:
         node = s.node
@@ -86,6 +91,9 @@ def check(run):
             cdefs = q.assigned_value(F, child)
             good = good and len(cdefs) == 1 and 'state_for' in q.unparse(cdefs[0][1]) and isinstance(lp.target, ast.Name) and lp.target.id in q.unparse(cdefs[0][1])
             run.check(good, r3, fi.short, 'every child of the exited state is examined', 'history children must be looked up among the children of the exited state', node)
+            if lp is not None:
+                early = [x for x in ast.walk(lp) if isinstance(x, (ast.Break, ast.Return))]
+                run.check(not early, r3, fi.short, 'the scan of the children never stops early', 'only the first history child of a compound state gets its memory recorded', early[0] if early else lp)
         # value: list(snapshot.intersection(scope(state.name)))
         val = strip_cast(node.value)
         origin = []
@@ -136,7 +144,10 @@ def check(run):
                   'removed from the live set when their parent is exited)', node)
     run.check(seen == {'deep', 'shallow'}, r, fi.short, 'both history kinds are saved', 'saves found for %s' % sorted(seen), A.exit_loop)
 
-    r = run.rule('C06.4', 'restoration: memory.get(history, [default memory]) sorted by (depth, name), history state exited in the same step')
+
+
+def rules_restore(run, P='C06', rid='.4'):
+    r = run.rule(P + rid, 'restoration: memory.get(history, [default memory]) sorted by (depth, name), history state exited in the same step')
     from .c07 import micro_lists
     from ..order import Orders, show
     si = run.fn('Interpreter._create_stabilization_step')
